@@ -83,6 +83,11 @@ func body13(k c13case) Body {
 					c.Deliver(hb)
 				case "exception":
 					c.Deliver(Wire{Rev: neg}.Exception(refwire.Exception{Code: 516, Name: "DB::Exception", Message: "DB::Exception: default: Authentication failed", Stack: ""}))
+				case "exception-close":
+					// a real server closes after refusing; the transport reports the end of the stream
+					// together with the exception's last bytes
+					c.EOFWithData = true
+					c.DeliverAndCut(Wire{Rev: neg}.Exception(refwire.Exception{Code: 516, Name: "DB::Exception", Message: "DB::Exception: default: Authentication failed", Stack: ""}))
 				case "pong":
 					c.Deliver(Pong())
 				case "data":
@@ -121,7 +126,7 @@ func body13(k c13case) Body {
 			if cl != nil {
 				return Outcome{Key: "C13/client-returned-with-error", Detail: fmt.Sprintf("handshake failed (%v) but a client was returned", err)}
 			}
-			if k.resp == "exception" {
+			if k.resp == "exception" || k.resp == "exception-close" {
 				e, ok := ch.AsException(err)
 				if !ok || e.Code != 516 || !strings.Contains(e.Message, "Authentication failed") {
 					return Outcome{Key: "C13/exception-not-carried", Detail: fmt.Sprintf("the server's exception cannot be recovered from %v", err)}
@@ -209,7 +214,7 @@ func body13(k c13case) Body {
 
 // C13 — handshake negotiates min(client, server) revision and fails cleanly.
 func C13(c *vk.Ctx) {
-	c.Rule("client revision x server revision over the threshold-neighbour revision set (every interval between consecutive feature revisions plus both neighbours of each threshold; client <= 54460, server <= 54480) with a well-formed hello; {hello delayed by read timeout + 1 s, exception, Pong, Data, garbage, immediate cut, silence until the handshake timeout, hello truncated at every byte} x a diagonal of revision pairs; 4 credential / database / quota-key string sets; through Connect and through Dial with a simulated dialer. The reference peer writes its hello with the fields defined at min(client, server). After a successful handshake a query is executed and its packets are parsed / rendered by the reference model at min(client, server). distinct_nontrivial = cases.")
+	c.Rule("client revision x server revision over the threshold-neighbour revision set (every interval between consecutive feature revisions plus both neighbours of each threshold; client <= 54460, server <= 54480) with a well-formed hello; {hello delayed by read timeout + 1 s, exception, exception followed at once by the close (end of stream reported together with its last bytes), Pong, Data, garbage, immediate cut, silence until the handshake timeout, hello truncated at every byte} x a diagonal of revision pairs; 4 credential / database / quota-key string sets; through Connect and through Dial with a simulated dialer. The reference peer writes its hello with the fields defined at min(client, server). After a successful handshake a query is executed and its packets are parsed / rendered by the reference model at min(client, server). distinct_nontrivial = cases.")
 	crevs := refwire.RevSet(50000, 54460)
 	srevs := refwire.RevSet(50000, 54480)
 	run := func(k c13case, group string) {
@@ -260,7 +265,7 @@ func C13(c *vk.Ctx) {
 	}
 	for _, p := range pairs {
 		for _, dial := range []bool{false, true} {
-			for _, resp := range []string{"hello-late", "exception", "pong", "data", "garbage", "cut", "silence"} {
+			for _, resp := range []string{"hello-late", "exception", "exception-close", "pong", "data", "garbage", "cut", "silence"} {
 				run(c13case{crev: p.c, srev: p.s, resp: resp, dial: dial}, "fault responses")
 			}
 			hb := ServerHello(func() refwire.ServerHello { h := baseHello; h.Revision = p.s; return h }(), p.c)
